@@ -74,7 +74,7 @@ def single_exit(cx):
         cx.bad(cx.site_key(s, "write:Raft.msgs"), "Raft.msgs written outside send/gen_light_ready (%s)" % s.data.get("callee", "assignment"), s)
 
 
-@obligation("MSG.term_stamp", ["C02", "C06", "C08"], floor=10, kind="must-pass-through per message type",
+@obligation("MSG.term_stamp", ["C02", "C06", "C08", "C16"], floor=10, kind="must-pass-through per message type",
             why="replies that do not carry the sender's term cannot depose a stale leader or be discarded as stale")
 def term_stamp(cx):
     send = cx.fn("RaftCore::send")
